@@ -76,7 +76,10 @@ def gen_case(rng, tier):
             t = t.replace(second=0) + timedelta(minutes=rng.choice([0, 0, 1, -1]))
         if t is not None and kind in ('ampm', 'nosec') and rng.random() < 0.3:
             t = t.replace(hour=rng.choice([0, 12]), minute=rng.choice([0, 30]))
-        if t is None:
+        if t is not None and rng.random() < 0.08:
+            # that moment with its seconds / minutes just out of range: not a timestamp
+            lines.append(matchers.near_miss(kind, t, rng) + ' msg')
+        elif t is None:
             lines.append(rng.choice(['', 'no timestamp here', '2023-02-30 00:00:00 x',
                                      ' 2023-01-01 00:00:00 leading space', '2023-01-01',
                                      'x' * 70, '0000-00-00 00:00:00', '2023-01-01 24:00:00',
